@@ -392,6 +392,13 @@ def _reuse_ops(obj_kind, vel):
             ops[f"efficiencyFactor({lab})"] = (lambda o, v=vel[lab]: o.efficiencyFactor(v))
     ops["findvwLTE"] = lambda o: o.findvwLTE()
     ops["findJouguetVelocity"] = lambda o: o.findJouguetVelocity()
+
+    def retune(o):
+        # the Thermodynamics object is re-used for another nucleation temperature after this solver was built (a Tn scan that
+        # builds its solvers first and evaluates them later): the solver keeps the Tn it was built with for everything
+        o.thermodynamics.Tnucl = 0.93 * float(o.thermodynamics.Tnucl)
+
+    ops["thermodynamics.Tnucl-reassigned"] = retune
     if obj_kind == "full":
         ops["fastestDeflag"] = lambda o: o.fastestDeflag()
         ops["slowestDeton"] = lambda o: o.slowestDeton()
@@ -463,7 +470,7 @@ def case_reuse(c: dict) -> dict:
     depth = c["depth"]
     for d in range(2, depth + 1):
         # depth 3 only over the operations that could leave state behind (everything except pure attribute reads)
-        alphabet = names if d == 2 else [n for n in names if n.startswith(("findvwLTE", "maxAl", "fastestDeflag", "slowestDeton", "findMatching(vJ", "findMatching(hyb", "efficiencyFactor(hyb"))]
+        alphabet = names if d == 2 else [n for n in names if n.startswith(("findvwLTE", "maxAl", "fastestDeflag", "slowestDeton", "findMatching(vJ", "findMatching(hyb", "efficiencyFactor(hyb", "thermodynamics.Tnucl"))]
         for seq in itertools.product(alphabet, repeat=d - 1):
             # after the prefix EVERY operation is observed; live objects do not copy, so the prefix is replayed per observed operation
             for last in names:
